@@ -51,6 +51,10 @@ EveryFam   == Families \cup {AllMgrs}
 OnlyAll    == {AllMgrs}
 OnlyGlobal == {FamGlobal}
 OnlyPermCtx == {FamPermCtx}
+OnlyVal    == {FamVal}
+OnlyKw     == {FamKw}
+OnlyDetour == {FamDetour}
+OnlyTimeit == {FamTimeit}
 
 \* value scopes: 0 = False, 1 = True, 2 = None (defer to the object), -1 = key absent
 DefaultOf(m) == CASE m \in {"notify", "typecheck"} -> 1
